@@ -4,6 +4,16 @@ import importlib
 import numpy as np
 
 
+class MapView(dict):
+    """a real dict (usable by the real code) that also answers the contract's has()/get() questions"""
+
+    def has(self, k):
+        return k in self
+
+    def get(self, k, d=None):
+        return dict.get(self, k, d if d is not None else 0)
+
+
 def cview(x):
     """contract-side view of a real argument (slice -> SliceV)"""
     from pyvc.api import SliceV
@@ -27,6 +37,8 @@ def conv(x):
             return {k: conv(v) for k, v in x["dict"].items()}
         if "frac" in x:
             return x["frac"][0] / x["frac"][1]
+        if "symmap" in x:
+            return MapView({k: conv(v["get"]) for k, v in x["symmap"].items() if v["has"]})
         if "obj" in x:
             return build_obj(x["obj"], {k: conv(v) for k, v in x["attrs"].items()})
         return x
@@ -66,7 +78,48 @@ def resolve(target):
     return obj, parts
 
 
+CUSTOM = {}
+
+
+def custom(target):
+    def deco(f):
+        CUSTOM[target] = f
+        return f
+    return deco
+
+
+@custom("cooler.core._rangequery:_region_to_extent")
+def _replay_region_to_extent(inputs):
+    from cooler.core._rangequery import _region_to_extent
+    a = {k: conv(v) for k, v in inputs.items()}
+    h5, ids, region, binsize = a["h5"], a["chrom_ids"], a["region"], a["binsize"]
+    chrom, s, e = region
+    out = {"inputs_used": repr(a)[:600]}
+    try:
+        lo, hi = tuple(_region_to_extent(h5, ids, region, binsize))
+        lo, hi = int(lo), int(hi)
+    except Exception as ex:
+        out.update(raised=f"{type(ex).__name__}: {ex}", violations=[], violates_contract=False,
+                   note="model does not describe a well-formed table (abstraction artefact)")
+        return out
+    c = ids[chrom]
+    off = h5["indexes"]["chrom_offset"]
+    st, en = h5["bins"]["start"], h5["bins"]["end"]
+    ks = range(int(off[c]), int(off[c + 1]))
+    exp = [k for k in ks if st[k] < e and en[k] > s] if s < e else [k for k in ks if st[k] <= s < en[k]]
+    got = list(range(lo, hi))
+    viol = []
+    if s < e and got != exp:
+        viol.append(f"extent {lo, hi} selects bins {got}, overlapping bins are {exp}")
+    if s == e and not (len(got) <= 1 and all(k in exp for k in got)):
+        viol.append(f"empty range at {s}: extent {lo, hi} selects bins {got}; bins containing the position: {exp}")
+    out.update(returned=repr((lo, hi)), raised=None, violations=viol, violates_contract=bool(viol))
+    return out
+
+
 def replay(target, inputs):
+    if target in CUSTOM:
+        return CUSTOM[target](inputs)
     c = load_contract(target)
     args = {k: conv(v) for k, v in inputs.items()}
     fn, parts = resolve(target)
